@@ -132,6 +132,16 @@ def scenario(c, inst):
                 c.check("c19.int_index_in_range", ok, info=dict(i=i, n=n, got=repr(r)[:80] if st != "ok" else None))
             else:
                 c.check("c19.int_index_out_of_range_raises_IndexError", st == "exc" and isinstance(r, IndexError), info=dict(i=i, n=n))
+            # integers that are not the builtin int (what np.argmax, np.searchsorted, a loop over np.arange hand over) are integer indices too
+            for ityp in (np.int64, np.int32, np.intp, np.uint8):
+                if i < 0 and ityp is np.uint8:
+                    continue
+                st, r = run(a.__getitem__, ityp(i))
+                if -n <= i < n:
+                    ok = st == "ok" and _eqv(c, [r.t], [T[i]]) and _eqv(c, r.y, Y[i])
+                    c.check("c19.numpy_integer_index_in_range", ok, info=dict(i=i, n=n, type=ityp.__name__, got=repr(r)[:80] if st != "ok" else None))
+                else:
+                    c.check("c19.numpy_integer_index_out_of_range_raises_IndexError", st == "exc" and isinstance(r, IndexError), info=dict(i=i, n=n, type=ityp.__name__))
         rows = []
         it = iter(a)
         for _ in range(n + 3):
